@@ -389,6 +389,17 @@ def run(check, mirror, tier):
     regex_job("split", 2, True, RXW2)
     run_parallel(check, jobs)
 
+    # ---------------------------------------------------------------- E: no state inside a compiled decision table survives an evaluation
+    # (the obligation C03 decides functionally: one evaluation is an inductive step from whatever interior-mutable state earlier
+    # evaluations - by other threads, with other inputs - may have left in the compiled table; lib/interior.py)
+    from checks import C03 as _c03
+    crate_me = MirCrate(mirror, ["model-evaluator", "feel"], overflow_checks=True, enum_crates=("common", "feel", "model"))
+    check.bounds.append("E: the evaluator build_decision_table_evaluator returns, 0..3 rules, 0..2 input entries, every hit policy; any interior-mutable field of the compiled table "
+                        "holds an arbitrary value of its type")
+    jobs = []
+    _c03.evaluation_job(check, mirror, rb, crate_me, jobs, U)
+    run_parallel(check, jobs)
+
     # ---------------------------------------------------------------- B + C: the decision evaluation closure and the schedule query
     from checks import C20_locks
     C20_locks.run_locks(check, mirror, rb, tier, deadlock_query, stress)
